@@ -657,3 +657,39 @@ func sameValue(a, b ssa.Value) bool {
 	}
 	return false
 }
+
+// retVals returns the results of a Return with defer-spilled results resolved:
+// in a function with defers go/ssa stores results into locals and reloads
+// them after rundefers; each such load is replaced by the last store to that
+// local in the same block. ok=false for the recover block's return.
+func retVals(rt *ssa.Return) ([]ssa.Value, bool) {
+	out := make([]ssa.Value, len(rt.Results))
+	b := rt.Block()
+	if b.Parent().Recover == b {
+		return nil, false
+	}
+	for i, v := range rt.Results {
+		out[i] = v
+		u, ok := v.(*ssa.UnOp)
+		if !ok || u.Op != token.MUL {
+			continue
+		}
+		al, ok := u.X.(*ssa.Alloc)
+		if !ok {
+			continue
+		}
+		var last ssa.Value
+		for _, in := range b.Instrs {
+			if in == ssa.Instruction(u) {
+				break
+			}
+			if st, ok := in.(*ssa.Store); ok && st.Addr == ssa.Value(al) {
+				last = st.Val
+			}
+		}
+		if last != nil {
+			out[i] = last
+		}
+	}
+	return out, true
+}
